@@ -224,6 +224,33 @@ def obligations(tier):
 
     obs.append(Obligation('controlled.qudit_override', qudit_body, twin=lambda cx: qudit_body(cx, wrong=True), desc='XPowGate/ZPowGate(dimension=3,4).controlled(1..2): qid shape and block matrix (must not collapse to the qubit CNOT/CZ)'))
 
+    # control-value algebra: & is the product, | the union of the admitted control states (finite menus)
+    CVM = [
+        lambda: cirq.ProductOfSums([0, 0]), lambda: cirq.ProductOfSums([1, 1]), lambda: cirq.ProductOfSums([(0, 1), 1]), lambda: cirq.ProductOfSums([0, (0, 1)]),
+        lambda: cirq.SumOfProducts([[0, 1], [1, 0]]), lambda: cirq.SumOfProducts([[1, 1]]), lambda: cirq.ProductOfSums([(0, 1), (0, 1)]),
+    ]
+
+    def cv_or_body(cx, wrong=False):
+        a = CVM[cx.choose('a', len(CVM))]()
+        b = CVM[cx.choose('b', len(CVM))]()
+        got = set((a | b).expand())
+        exp = set(a.expand()) | set(b.expand())
+        if wrong:
+            exp = exp | {(2, 2)}
+        cx.check(got == exp, label='control_values.or_union')
+
+    def cv_and_body(cx, wrong=False):
+        a = CVM[cx.choose('a', len(CVM))]()
+        b = CVM[cx.choose('b', len(CVM))]()
+        got = set((a & b).expand())
+        exp = {x + y for x in a.expand() for y in b.expand()}
+        if wrong:
+            exp = exp | {(2, 2, 2, 2)}
+        cx.check(got == exp, label='control_values.and_product')
+
+    obs.append(Obligation('control_values.or_union', cv_or_body, twin=None, desc='(a | b).expand() == a.expand() U b.expand() for all pairs from a 7-entry menu of ProductOfSums / SumOfProducts on 2 qubits (finite exploration; KNOWN FINDING on the unchanged tree for ProductOfSums | ProductOfSums)'))
+    obs.append(Obligation('control_values.and_product', cv_and_body, twin=lambda cx: cv_and_body(cx, wrong=True), desc='(a & b).expand() is the product of the admitted control states (finite exploration)'))
+
     # ---- 3. phase_by == conjugation by the Z rotation, up to global phase ---------------------------------
     PH = [
         ('X', lambda t, s: cirq.XPowGate(exponent=t, global_shift=s), 1),
